@@ -8,13 +8,16 @@ configured simulation."
 Property theorems over the model of `Model.lean`. The formula theorems hold in every linearly ordered field, for
 every number of scatter points; the state-machine theorems for every history (no bound on its length) and every
 world. What is *not* theorem: that the C++ line integrals are the weighted sums of `integralBetween2Points`
-(correspondence/oracle only), the physics functions (inputs), floating point.
+(correspondence `actint` / oracle only), the physics functions (inputs; coverage round 4: `detection_efficiency` is
+transcribed with `erf` as a parameter, so its sign is a theorem for every energy window given that `erf` is monotone),
+floating point.
 -/
 import StirVerif.C16.ProofsFormula
 import StirVerif.C16.ProofsCache
 import StirVerif.C16.ProofsState
 import StirVerif.C16.ProofsTable
 import StirVerif.C16.ProofsFaithful
+import StirVerif.C16.ProofsDetection
 import Mathlib.Algebra.Order.Field.Rat
 import Mathlib.Tactic.NormNum
 
@@ -78,7 +81,11 @@ theorem C16_zero_activity_zero {ι : Type} (l : List ι) (c : ι → PC K) (a b 
   estimate_zero l c a b effAB vol sigma
 
 /-- "never negative": if every factor that is read is non-negative (activity and attenuation integrals, the power
-    of the attenuation factor, squared distances, incidence cosines, efficiencies, cross section, μ, volume) -/
+    of the attenuation factor, squared distances, incidence cosines, efficiencies, cross section, μ, volume).
+    Coverage round 4: two of these hypotheses are now discharged for EVERY energy window (also windows that do not contain
+    511 keV, where the efficiency at 511 keV may be 0): `0 ≤ effScatter` by `C16_detection_efficiency_nonneg` and
+    `0 ≤ eff511` by `C16_normalisation_pos`; `0 ≤ emis` by `C16_activity_integral_scattdet_nonneg` (capped solid-angle
+    factor included). The correspondence run feeds the model the efficiencies of such windows (`deteff`, `eff511`). -/
 theorem C16_estimate_nonneg (pts : List (PC K × PD K × PD K)) (rAB2 eff511 cosA cosB pi vol sigma : K)
     (h : ∀ p ∈ pts, p.1.Nonneg ∧ p.2.1.Nonneg ∧ p.2.2.Nonneg)
     (h1 : 0 ≤ rAB2) (h2 : 0 ≤ eff511) (h3 : 0 ≤ cosA) (h4 : 0 ≤ cosB) (h5 : 0 ≤ pi) (hv : 0 ≤ vol) (hs : 0 ≤ sigma) :
@@ -91,7 +98,77 @@ theorem C16_activity_integral_nonneg {V : Type} (x : V → K) (inImage : V → B
     (hx : ∀ v, 0 ≤ x v) (hl : ∀ e ∈ lor, 0 ≤ e.2) : 0 ≤ integralBetween2Points x inImage lor :=
   integral_nonneg x inImage lor hx hl
 
+/-- "never negative" — the detection efficiency `detection_efficiency(E) = ½(erf((hi−E)/σ) − erf((lo−E)/σ))` is
+    non-negative for EVERY energy `E` and EVERY window `lo ≤ hi` — whether or not it contains 511 keV, however narrow or
+    wide — for every `σ > 0` (any energy resolution), given only that `erf` is monotone -/
+theorem C16_detection_efficiency_nonneg (erf : K → K) (herf : ∀ x y, x ≤ y → erf x ≤ erf y) (sigma lo hi energy : K)
+    (hs : 0 < sigma) (hw : lo ≤ hi) : 0 ≤ detectionEfficiency erf sigma lo hi energy :=
+  detectionEfficiency_nonneg erf herf sigma lo hi energy hs hw
+
+/-- … and at most 1 (it is a probability), given that `erf` takes values in [-1, 1] -/
+theorem C16_detection_efficiency_le_one (erf : K → K) (hb : ∀ x, -1 ≤ erf x ∧ erf x ≤ 1) (sigma lo hi energy : K) :
+    detectionEfficiency erf sigma lo hi energy ≤ 1 :=
+  detectionEfficiency_le_one erf hb sigma lo hi energy
+
+/-- why the ORDER of the two `erf` terms matters (a rewrite that exchanges them for the energies above the window makes the
+    efficiency negative exactly for the windows below 511 keV): with the thresholds exchanged and a strictly increasing `erf`
+    the value is negative -/
+theorem C16_detection_efficiency_terms_exchanged_negative (erf : K → K) (herf : ∀ x y, x < y → erf x < erf y)
+    (sigma lo hi energy : K) (hs : 0 < sigma) (hw : lo < hi) : detectionEfficiency erf sigma hi lo energy < 0 :=
+  detectionEfficiency_neg_of_inverted erf herf sigma hi lo energy hs hw
+
+/-- "never negative" — the normalisation `detector_efficiency_no_scatter = detection_efficiency(511) > 0 ?
+    detection_efficiency(511) : 1` is positive whatever the window (so `0 ≤ eff511` in `C16_estimate_nonneg`), and it is the
+    efficiency at 511 keV whenever that is positive -/
+theorem C16_normalisation_pos (e : K) : 0 < detEff511OrOne e ∧ (0 < e → detEff511OrOne e = e) :=
+  ⟨detEff511OrOne_pos e, detEff511OrOne_eq_of_pos e⟩
+
+/-- "linear in the activity image" — for the activity integral as `integral_over_activity_image_between_scattpoint_det`
+    computes it, CAP INCLUDED: `min(π/2, 1/r²)` is a function of the geometry only and multiplies the line integral, so the
+    integral of `α·x + β·y` is `α`·integral of `x` + `β`·integral of `y` for all `α`, `β` and all voxel values (1e-6 … 1e6 and
+    beyond) — with it, `C16_estimate_linear_in_activity` applies to the activity integrals the code computes -/
+theorem C16_activity_integral_scattdet_linear {V : Type} (halfPi r2 : K) (x y : V → K) (α β : K) (inImage : V → Bool)
+    (lor : List (V × K)) :
+    integralOverActivityScattDet halfPi r2 (fun v => α * x v + β * y v) inImage lor =
+      α * integralOverActivityScattDet halfPi r2 x inImage lor + β * integralOverActivityScattDet halfPi r2 y inImage lor :=
+  integralOverActivityScattDet_linear halfPi r2 x y α β inImage lor
+
+/-- … and non-negative for a non-negative image (the `emis` hypothesis of `C16_estimate_nonneg`), never above
+    `π/2 ·` line integral -/
+theorem C16_activity_integral_scattdet_nonneg {V : Type} (halfPi r2 : K) (x : V → K) (inImage : V → Bool) (lor : List (V × K))
+    (h1 : 0 ≤ halfPi) (h2 : 0 ≤ r2) (hx : ∀ v, 0 ≤ x v) (hl : ∀ e ∈ lor, 0 ≤ e.2) :
+    0 ≤ integralOverActivityScattDet halfPi r2 x inImage lor ∧ solidAngleFactor halfPi r2 ≤ halfPi :=
+  ⟨integralOverActivityScattDet_nonneg halfPi r2 x inImage lor h1 h2 hx hl, solidAngleFactor_le halfPi r2⟩
+
 end Formula
+
+/-! non-vacuity (coverage round 4): a window below 511 keV with a piecewise-linear monotone stand-in for `erf`: the
+    efficiency at an energy inside the window is positive, at 511 keV it is 0 and the normalisation falls back to 1 -/
+def exErf (x : ℚ) : ℚ := if x < -1 then -1 else if 1 < x then 1 else x
+
+example : detectionEfficiency exErf (10 : ℚ) 400 480 440 = 1 ∧ detectionEfficiency exErf (10 : ℚ) 400 480 511 = 0 ∧
+    detEff511OrOne (detectionEfficiency exErf (10 : ℚ) 400 480 511) = 1 ∧ detectionEfficiency exErf (10 : ℚ) 400 480 485 = 1 / 4 := by
+  refine ⟨?_, ?_, ?_, ?_⟩ <;> norm_num [detectionEfficiency, detEff511OrOne, exErf]
+
+example : ∀ x y : ℚ, x ≤ y → exErf x ≤ exErf y := by
+  intro x y h
+  unfold exErf
+  split_ifs <;> linarith
+
+/-- the cap is applied to the geometry factor: far from the detector (`1/r² < π/2`) the factor is `1/r²`, next to it `π/2` -/
+example : solidAngleFactor (3 / 2 : ℚ) 100 = 1 / 100 ∧ solidAngleFactor (3 / 2 : ℚ) (1 / 4) = 3 / 2 := by
+  constructor <;> norm_num [solidAngleFactor]
+
+/-- why the cap must not be applied to `integral / r²` (a quantity proportional to the activity): with one voxel of value 1,
+    intersection length 1 and `r² = 1` the folded form gives 1 for the image and 3/2 (not 2) for twice the image, the form of
+    the code 1 and 2 -/
+theorem C16_folded_cap_not_homogeneous :
+    integralOverActivityFoldedCap (3 / 2 : ℚ) 1 (fun _ : Unit => 2) (fun _ => true) [((), 1)] ≠
+      2 * integralOverActivityFoldedCap (3 / 2 : ℚ) 1 (fun _ : Unit => 1) (fun _ => true) [((), 1)] ∧
+    integralOverActivityScattDet (3 / 2 : ℚ) 1 (fun _ : Unit => 2) (fun _ => true) [((), 1)] =
+      2 * integralOverActivityScattDet (3 / 2 : ℚ) 1 (fun _ : Unit => 1) (fun _ => true) [((), 1)] := by
+  constructor <;>
+    norm_num [integralOverActivityFoldedCap, integralOverActivityScattDet, integralOverActivity, solidAngleFactor, integralBetween2Points]
 
 /-! non-vacuity: a concrete point with a non-zero, asymmetric-looking contribution -/
 def exC : PC ℚ := ⟨1/2, 3/4, 1, 1/8, 3/32⟩
@@ -170,6 +247,17 @@ theorem C16_invalidation_failures :
        ("downsample_images_to_scanner_size", .spImage), ("downsample_images_to_scanner_size", .scatt)] ∧
     setUpForcedFailures setterTable = ["set_use_cache"] :=
   ⟨invalidationFailures_eq, setUpForcedFailures_eq⟩
+
+/-- coverage round 4 — the table with the dependencies of the AUTOMATIC (-1) zoom factors (`depsAuto`: the scatter-point image
+    then also depends on the template): exactly these additional (setter, datum) pairs lack an invalidation — the table-level
+    form of the KNOWN finding `scatter-setup:automatic-zoom-scatter-point-image-kept-after-template-change` (negative witness
+    history: `C16_history_eq_fresh_fails_auto_zoom`) -/
+theorem C16_invalidation_failures_auto_zoom :
+    invalidationFailuresAutoOnly setterTable =
+      [("set_template_proj_data_info", .spImage), ("set_template_proj_data_info", .scatt),
+       ("set_template_proj_data_info(filename)", .spImage), ("set_template_proj_data_info(filename)", .scatt),
+       ("downsample_scanner", .spImage), ("downsample_scanner", .scatt)] :=
+  invalidationFailuresAutoOnly_eq
 
 theorem C16_invalidation_complete_fails : ¬ C16_invalidation_complete_full := by
   intro h
@@ -257,6 +345,13 @@ example : ∃ s, run W0 init (baseConfig ++ [.setUp, .process]) = some s ∧ s.a
     template setter that follows resets `detector_efficiency_no_scatter`), and through the identifications of
     `Model.lean` over the setters by file name, `set_exam_info_sptr` and the parsed keyword `use cache`; the scatter
     points carry the value of `randomly_place_scatter_points` they were sampled with.
+    Coverage round 4: the histories now also range over the AUTOMATIC (-1) zoom factors — `set_up` /
+    `downsample_density_image_for_scatter_points` with the defaults compute the factors from the attenuation image and the
+    template and STORE them in `zoom_xy` / `zoom_z` / `zoom_size_z` (state `autoZ`), `zoom_size_xy` stays -1 — under the
+    guards `autoTmplOk` / `autoAttOk`: once the factors are stored, a new template or attenuation image must be one for which
+    the same factors would be computed (e.g. an attenuation image of ANOTHER x/y size with the same voxel size and planes:
+    `histAutoAtt`); a template with another default bin size is excluded — negative witnesses `C16_history_eq_fresh_fails_auto_zoom`.
+    (Before, `set_up` with the defaults was answered `unmodelled` and such histories never reached a successful `process`.)
     See `C16_history_eq_fresh_partial2` for the weaker guard on enabling the cache. -/
 theorem C16_history_eq_fresh_partial (W : World) (ops : List Op) (s : St) (hrun : runGuarded W init ops = some s) :
     (process W s).2.1 ≠ .crash ∧ ∀ o, (process W s).2 = (.ok, some o) → freshOut W s = (.ok, some o) :=
@@ -334,6 +429,32 @@ theorem C16_history_eq_fresh_fails_ds_flag :
     staleAfter W0 histDsFlag = true ∧
       downsampledTmpl (downsampledTmpl (W0.tmpl 0) 2 10) 2 10 ≠ downsampledTmpl (W0.tmpl 0) 2 10 :=
   ⟨histDsFlag_stale, downsample_not_idempotent⟩
+
+/-- non-vacuity (coverage round 4): one object with the automatic zoom factors re-used with two other attenuation images, the
+    scatter-point image derived by `set_up` and by an explicit down-sampling call: inside the guard, fresh -/
+example : (runGuarded W0 init histAutoAtt).isSome = true ∧ freshAfter W0 histAutoAtt = true :=
+  ⟨histAutoAtt_guarded, histAutoAtt_fresh⟩
+
+/-- negative witnesses (KNOWN `scatter-setup:automatic-zoom-scatter-point-image-kept-after-template-change` and
+    `scatter-setup:automatic-zoom-factors-frozen-by-first-set-up`, replayed by the harness): with the automatic factors a
+    template change keeps the scatter-point image derived for the old template, and after `set_density_image_sptr` the
+    image is re-derived with the factors stored for the FIRST template -/
+theorem C16_history_eq_fresh_fails_auto_zoom :
+    staleAfter W0 histAutoTmplKept = true ∧ staleAfter W0 histAutoFrozen = true ∧
+      (runGuarded W0 init histAutoTmplKept).isSome = false :=
+  ⟨histAutoTmplKept_stale, histAutoFrozen_stale, histAutoTmplKept_not_guarded⟩
+
+/-- what the automatic call stores (ScatterSimulation.cxx:562): `zoom_size_xy` stays -1 — the x/y size is derived again from
+    whatever attenuation image the next call sees — while `zoom_xy`, `zoom_z`, `zoom_size_z` (= number of rings) are fixed -/
+theorem C16_auto_downsample_stores (W : World) (s : St) (m : Nat) (t : Tmpl) (zs : Nat → Int × Int)
+    (hm : s.att = some m) (hz : s.zoom = none) (ha : s.autoZ = none) (ht : s.tmpl = some t) :
+    zoomMembers zs s = (-1, -1, true) ∧ zoomMembers zs (downsampleSp W s).1 = (-1, (t.rings : Int), false) ∧
+      (downsampleSp W s).1.spImage = some (.auto m (W.autoClass m t)) ∧
+      ∀ m', (downsampleSp W (setDensity (some m') (downsampleSp W s).1).1).1.spImage = some (.auto m' (W.autoClass m t)) := by
+  refine ⟨by simp [zoomMembers, hz, ha], by simp [zoomMembers, downsampleSp, sampleScatterPoints, hm, hz, ha, ht],
+    by simp [downsampleSp, sampleScatterPoints, hm, hz, ha, ht], ?_⟩
+  intro m'
+  simp [downsampleSp, sampleScatterPoints, setDensity, hm, hz, ha, ht]
 
 /-- negative witnesses outside the property's list of changes (sampling parameters): a threshold / zoom change
     after the scatter-point image exists is ignored -/
